@@ -309,19 +309,34 @@ theorem C11_f64_finite (s : Bytes) (v : Nat) (h : toF64 s = .ok v) : expField v 
 
 example : ∃ v, toF64 [46, 53] = .ok v := ⟨_, rfl⟩
 
-/-
-C11_f64_two_ulp, full statement (NOT proved; growth theorem of DESIGN.md):
+/-- **within two ulps at and above `2^53`**: for an accepted decimal whose digits taken as one
+integer `N` are at least `2^53` (such inputs necessarily have a decimal point, see
+`C11_f64_big_integer_refused`), the result is `± R` where `R = q·2^e` is encoded by
+`packBits q e` with `2^52 ≤ q ≤ 2^53` — so `2^e` is at most one ulp of `R` — and
+`|N / 10^k − R| ≤ 2·2^e` (written cross-multiplied over the naturals, `k = |f|`).  It composes
+the half-ulp error of `N as f64` with the half-ulp error of the division (`rneBits_half_ulp`,
+`frac_two_roundings`, `frac_two_ulp`). -/
+theorem C11_f64_two_ulp (s : Bytes) (neg : Bool) (ip f : Bytes)
+    (ha : F64Accepts s neg ip (some f)) (hN : 2 ^ 53 ≤ decVal (ip ++ f)) :
+    ∃ (q : Nat) (e : Int),
+      toF64 s = .ok (signed neg (packBits q e)) ∧ 2 ^ 52 ≤ q ∧ q ≤ 2 ^ 53 ∧
+      (0 ≤ e → decVal (ip ++ f) ≤ q * (10 ^ f.length * 2 ^ e.toNat) + 2 * (10 ^ f.length * 2 ^ e.toNat) ∧
+               q * (10 ^ f.length * 2 ^ e.toNat) ≤ decVal (ip ++ f) + 2 * (10 ^ f.length * 2 ^ e.toNat)) ∧
+      (e < 0 → decVal (ip ++ f) * 2 ^ (-e).toNat ≤ q * 10 ^ f.length + 2 * 10 ^ f.length ∧
+               q * 10 ^ f.length ≤ decVal (ip ++ f) * 2 ^ (-e).toNat + 2 * 10 ^ f.length) := by
+  have hacc := ha
+  obtain ⟨hd, -, -, -, -, hk, hle⟩ := ha
+  obtain ⟨q, e, hb, hq1, hq2, hpos, hneg⟩ := frac_two_ulp (decVal (ip ++ f)) f.length hN hle hk
+  refine ⟨q, e, ?_, hq1, hq2, hpos, hneg⟩
+  rw [toF64_ok_iff]
+  exact ⟨neg, ip, some f, hacc, by simp only [f64Value, fracVal, signed, hb]⟩
 
-  theorem C11_f64_two_ulp (s : Bytes) (neg : Bool) (ip f : Bytes)
-      (ha : F64Accepts s neg ip (some f)) (hN : 2 ^ 53 ≤ decVal (ip ++ f)) :
-      ∃ v, toF64 s = .ok v ∧
-        ulpDistance v (signed neg (rneBits (decVal (ip ++ f)) (10 ^ f.length))) ≤ 2
+-- "9007199254740993.5": N = 90071992547409935 ≥ 2^53, one fraction digit
+example : F64Accepts [57,48,48,55,49,57,57,50,53,52,55,52,48,57,57,51,46,53] false
+    [57,48,48,55,49,57,57,50,53,52,55,52,48,57,57,51] (some [53]) :=
+  ⟨_, ⟨by decide, Or.inl rfl⟩, rfl, by decide, by decide, by decide, by decide⟩
+example : (2 : Nat) ^ 53 ≤ decVal ([57,48,48,55,49,57,57,50,53,52,55,52,48,57,57,51] ++ [53]) := by decide
 
-covered by the correspondence run (the model computes the exact two-rounding result) and by
-the harness oracle `f64-beyond-2ulp` against Rust's correctly rounded `str::parse::<f64>`.
-Missing: the relative-error analysis of two successive roundings (needs `rneBits` within
-half an ulp of the exact quotient, then the composition).
--/
 
 example : toF64 [45, 49, 50] = .ok 0xC028000000000000 := by rfl   -- "-12" = -12.0
 
